@@ -1,9 +1,9 @@
 """C15 - value expressions evaluate as written and survive printing.
 Correspondence: generated expressions (bounded-exhaustive small operator trees, random deep trees with
 let-bindings, lambdas and function definitions, every operator spelling, redundant parentheses, white
-space variations, a malformed stream) go as TEXT to ledger (REPL `parse`, `eval verif_rational(..)`,
-and `eval` of the text ledger printed) and as the TOKEN LIST to the extracted Coq model
-(Model/Expr.v: parse, print, compile, calc).  Compared: the printed tree text, the value, the value of
+space variations, a malformed stream, tokenizer-directed texts) go as TEXT to ledger (REPL `parse`,
+`eval verif_rational(..)`, and `eval` of the text ledger printed) and as the SAME TEXT to the extracted Coq model,
+which tokenizes it itself (Model/ExprLex.v: lex_prefix, parse_text; Model/Expr.v: parse, print, compile, calc).  Compared: the printed tree text, the value, the value of
 the re-parsed printed text.
 Oracle: a reference evaluator over the abstract syntax with Fractions, written from the documented
 grammar (precedence by construction of the tree, short-circuit and/or, one-branch ?:, lexical
@@ -19,8 +19,8 @@ META = dict(
     id='C15',
     level='proof',
     technique='Coq proof (recursive-descent parser model vs the precedence grammar; calc/compile/print model) + differential correspondence of the extracted model against ledger + reference evaluator',
-    level_text='Theorems in coq/Properties/Properties_C15.v state, for all expressions of the operator grammar, that the model of parser.cc parses the minimally parenthesised text (and any more heavily parenthesised one) of an abstract expression to exactly its tree (precedence unary > * / > + - > comparisons > & > | > ?:, left associativity, parentheses override), that op_t::print output parses back to the same tree, conditionals included, that & | ?: evaluate only the operands the grammar says, that compiled identifiers keep the meaning they had at definition, and that constant folding and compilation preserve values. The model is tied to the code by running thousands of generated expressions through freshly built ledger (text as parsed, exact values through verif_rational, re-parse of the printed text) and through the extracted model.',
-    level_note='Trusted: Coq kernel; extraction + OCaml driver and python harness for the correspondence; the tokenizer is exercised by the correspondence (the model starts from tokens); value arithmetic is Model/Amount.v (C03). Not modelled: strings, dates, regex masks, member lookup, sequences as values, per-SCOPE symbol tables (use-before-definition inside a body).',
+    level_text='Theorems in coq/Properties/Properties_C15.v state, for all expressions of the operator grammar, that the model of parser.cc parses the minimally parenthesised text (and any more heavily parenthesised one) of an abstract expression to exactly its tree (precedence unary > * / > + - > comparisons > & > | > ?:, left associativity, parentheses override), that op_t::print output parses back to the same tree, conditionals included, that the tokenizer model reads every operator spelling, word operator and boolean back from its text whatever the number of blanks between tokens and skips white space in front of any token, that & | ?: evaluate only the operands the grammar says, that compiled identifiers keep the meaning they had at definition, and that constant folding and compilation preserve values. The model is tied to the code by running thousands of generated expressions through freshly built ledger (text as parsed, exact values through verif_rational, re-parse of the printed text) and through the extracted model.',
+    level_note='Trusted: Coq kernel; extraction + OCaml driver and python harness for the correspondence; the tokenizer is modelled (Model/ExprLex.v) and the model is given the expression text; its round trip is proved for the fixed-spelling tokens only (identifiers and literals: computed examples + correspondence); value arithmetic is Model/Amount.v (C03). Not modelled: strings, dates, regex masks, member lookup (each a lexing failure in the model), sequences as values, per-SCOPE symbol tables (use-before-definition inside a body).',
     design_ref='DESIGN.md section 7 C15, section 9 F1 (F6 and F34 repaired)',
     assumptions=['expressions avoid built-in function names, the predefined time commodities s/m/h and reserved words as identifiers',
                  'INTEGER values stay within C long',
@@ -821,6 +821,83 @@ def mal_tokens(text):
     return out
 
 
+
+# ---- tokenizer streams -----------------------------------------------------------------------------
+LEX_OPERANDS = ['1', '25', '2.50', '0.5', '$3', '$4.25', '6 EUR', '7EUR', '{5}', '{$6.10}', '{7 EUR}', '{ 8 }', '{$ 9}',
+                'true', 'false', 'zqa', 'zqb_c', '_zq', 'zqA', 'falsely', 'truely', 'android', 'ore', 'iffy', 'nota', 'elsewise',
+                'diva', 'trueish', 'falsezq', 'and_zq', 'or_zq', 'not_zq', 'if_zq', 'divzq', 'zqand', 'zqor', '(2)', '( 3 )',
+                'to_int(4)', 'abs(5)', 'zqf(1, 2)', 'zqf(zqa, 2)', 'zqf(1,2)', 'zqf(zqa,2)', '1,000', '1,5', '$1,234.50']
+LEX_OPS = ['+', '-', '*', '/', 'div', '==', '!=', '<', '<=', '>', '>=', '&', '&&', 'and', '|', '||', 'or', '?', ':', 'if',
+           'else', ';', '- -', '* -', '+ -', '& ! ', 'and not', '| not ', '&&&', '|||', '===', '<==', '>==', '<>',
+           '-->', '!==']
+LEX_SEPS = ['', '', ' ', ' ', '  ', '    ']
+LEX_DIRECTED = ['zqa -3', 'zqa-3', 'zqa - 3', 'zqa -3.5 + 1', '2 * zqa -3', 'zqa 3', 'zqa3', 'zqa 3 + zqa 4', 'zqa -3 + zqa 5',
+                'zqa,2', 'zqa ,2', 'zqa, 2', 'zqa -zqb', 'zqa - zqb', '3 zqa', '3zqa', '3 zqa + 4 zqa', '-3 zqa', '- 3 zqa',
+                '3 and 4', '3and4', '3 or 0', '3or0', '3 if true', '3if true', '3 if true else 4', '3if true else4', '6 div 2', '6div2',
+                '6 divx', '3 else', '3 not', 'not3', 'not 3', 'nottrue', 'not true', 'truefalse', 'true false', 'falsetrue',
+                'falsely', 'falselyzq', 'truely', '1 and_zq', '1 and _zq', '1 andzq 2', '1 &&& 2', '1 ||| 0', '1 === 1', '1 <== 2',
+                '1 >== 2', '1 <> 2', '1 --> 2', '1 !== 2', '1 ! = 2', '1 < = 2', '1 - > 2', '1 & & 2', '1 | | 2', '1- -2', '1--2', '1 - - 2', '1 -- 2', '6/2', '6 /2', '6/ 2', '6 / 2', '(6)/2', 'to_int(6)/2',
+                '6 / / 2', '6 + / 2', '{6}/{2}', '{6 EUR}/{2}', '{6 EUR }', '{ 6 EUR}', '{6', '{}', '{EUR}', '{6}}',
+                '{$6.10}*2', '{-6}', '{- 6}', '{$-6}', '{-$6}', '$-6', '-$6', '- $6', '6EUR', '6  EUR', '6 EUR2',
+                '6 EUR 2', '1.2.3', '1,2,3', '1,234', '1,23', '1 ; 2', '1;2', '1 ;', 'zqx=1;zqx+1',
+                'zqx = 1 ; zqx + 1', 'zqg(zqy)=zqy*2;zqg(4)', '(zqy->zqy+1)(2)', '(zqy -> zqy + 1) (2)', '1?2:3',
+                '1 ? 2 : 3', 'true?2:3', 'false?2:3', '0?2:3', '1 @ 2', '1 # 2', '1 % 2', '1 ^ 2', '1 \\ 2', '1 $', '$', '1 ~ 2', '#', '@', '%', '_', '__zq',
+                'zq_1', 'zq_ 1', '1e5', '1 e5', '0x10', '007', '0.10', '00.100', 'A', 'Z9', 'zq$', '$zq', '$zq 1', 'EUR 6', 'EUR6', 'EUR -6',
+                'EUR - 6', '1   +    2', '1+2', ' 1+2 ', '(1+2)*3', '( 1 + 2 ) * 3', '((1))', '( ( 1 ) )', '(1', '1)']
+
+
+def gen_lex_text(rng):
+    n = rng.choice([1, 2, 2, 3, 3, 4, 5])
+    parts = [rng.choice(LEX_OPERANDS)]
+    for _ in range(n - 1):
+        parts += [rng.choice(LEX_OPS), rng.choice(LEX_OPERANDS)]
+    if rng.random() < 0.08:
+        parts.append(rng.choice(LEX_OPS))
+    if rng.random() < 0.05:
+        parts.insert(0, rng.choice(['-', '! ', 'not', 'not ', '+', '*']))
+    out = parts[0]
+    for x in parts[1:]:
+        out += rng.choice(LEX_SEPS) + x
+    return re.sub(r'!(?![ =])', '! ', out)       # libedit history expansion: `!` is written `! ` or `!=`
+
+
+def lex_case(text):
+    c = Case()
+    c.kind, c.ast, c.tl, c.text, c.sxs = 'lex', None, None, text, []
+    return c
+
+
+def process_lex(ctx, res, rows, cat):
+    """impl vs model on tokenizer-directed TEXT: the printed tree (only when no amount of a commodity outside the teaching
+    journal occurs in it: the driver renders the styles of those alone), the value, the value of the printed text"""
+    for i, c, iv, ip, ir, mp, mv, mr in rows:
+        res.evaluations += 1
+        res.traces += 1
+        res.count('cat:' + cat)
+        res.count('lex:' + ('parse-error' if ip.startswith('E:') else 'parsed'))
+        known = all(re.fullmatch(r'\s*(\$\s*)?-?[0-9.,]+\s*(EUR|AAA|BTC|CAD)?\s*|\s*-?\s*\$\s*[0-9.,]+\s*', m) for m in AMT_RE.findall(ip))
+        if (ip.startswith('E:') or mp.startswith('E:') or known) and ip != mp:
+            res.disagreements.append(dict(name='C15/lex-print-text', case=c.text, impl=ip, model=mp))
+        if mv.startswith('ORDER-DEPENDENT'):
+            continue
+        if kc(iv) != kc(mv):
+            res.disagreements.append(dict(name='C15/lex-value', case=c.text, impl=iv, model=mv))
+        if not ip.startswith('E:') and not iv.startswith('E'):
+            res.nontrivial.add(c.text)
+
+
+def two_spellings(ctx, res, journal, trees, rng):
+    """ORACLE for white space (property text: an expression means what is written - blanks between tokens are not part of
+    it): the same token list spelled with every optional blank dropped and with blanks everywhere must print as the same tree
+    and have the same value.  Both spellings also go through the model's tokenizer (correspondence)."""
+    pairs = []
+    for t in trees:
+        tl = toks(rng, t, L_SEQ, 0.0)
+        a, b = spell(rng, tl, 1.0), spell(rng, tl, 0.0)
+        if len(a) < 3000 and len(b) < 3000:
+            pairs.append((t, a, b))
+    return pairs
+
 # ---- running ---------------------------------------------------------------------------------------
 def make_journal(ctx, rng, name):
     pool = {}
@@ -900,7 +977,8 @@ def run_batch(ctx, res, journal, pool0, cases, tag):
                 s = sx[5].decode()
                 pool[s] = max(pool.get(s, 0), sx[3])
         lines.append(lib.sx(['case', '%s%d' % (tag, i), c03.pool_sx(pool),
-                             ['pool0'] + c03.pool_sx(pool0)[1:], ['toks'] + c.sxs]))
+                             ['pool0'] + c03.pool_sx(pool0)[1:],
+                             ['ptext' if c.kind == 'lex' else 'text', (' ' + c.text).encode()]]))
     t1 = time.time()
     mo = lib.run_model('C15', lines)
     res.extra['t_impl'] = res.extra.get('t_impl', 0) + round(t1 - t0, 2)
@@ -1078,6 +1156,13 @@ def mk_case(rng, kind, ast, extra=0.0, tight=0.3):
     return c
 
 
+def mk_text_case(ast, text):
+    c = Case()
+    c.kind, c.ast, c.tl, c.text = 'spelling', ast, None, text
+    c.sxs = [t.sx for t in toks(__import__('random').Random(0), ast, L_SEQ, 0.0)]
+    return c
+
+
 def mk_define_case(rng, stmts, body):
     """the top-level definitions go into the journal as `define` directives, the body is evaluated in
     the REPL; the model and the oracle see the one sequence `d1; d2; ..; body`"""
@@ -1105,7 +1190,8 @@ def run_define_batch(ctx, res, pool0, cases):
     path = ctx.path('defines.dat')
     open(path, 'w').write('\n'.join(head + [''] + lines) + '\n')
     out_v = [canon_val(b) for b in lib.run_repl(path, ["eval 'verif_rational(%s)'" % c.text for c in cases])]
-    mlines = [lib.sx(['case', 'df%d' % i, c03.pool_sx(pool0), ['pool0'] + c03.pool_sx(pool0)[1:], ['toks'] + c.sxs])
+    mlines = [lib.sx(['case', 'df%d' % i, c03.pool_sx(pool0), ['pool0'] + c03.pool_sx(pool0)[1:],
+                      ['text', '; '.join(c.tag + [c.text]).encode()]])
               for i, c in enumerate(cases)]
     model = {}
     for l in lib.run_model('C15', mlines):
@@ -1136,7 +1222,8 @@ def run(ctx, n_override=None):
     res.rule = ('all operator trees of depth <= 2 over 10 leaves (to_int integers, decimals, $ and EUR amounts, braced literals, booleans, zero) '
                 'and 12 binary + 2 unary operators + ?:, a sample (thorough: a bounded-exhaustive sweep over 4 leaves) of depth 3; random trees of '
                 'depth <= 7 with let-bindings, lambdas, function definitions, calls, every operator spelling, redundant parentheses and white '
-                'space variations; directed scoping / short-circuit / precedence shapes; a malformed stream (printed text only). '
+                'space variations; directed scoping / short-circuit / precedence shapes; a malformed stream (printed text only); tokenizer texts (word-operator '
+                'edges, two-character operators, identifier/number adjacency, {..}) and random trees spelled without any optional blank and with blanks everywhere. '
                 'non-trivial = at least two different node kinds and the reference evaluator determines the value; distinct by text')
     scale = n_override or 1
     journal, pool0 = make_journal(ctx, rng, 'teach.dat')
@@ -1209,6 +1296,35 @@ def run(ctx, n_override=None):
         c.sxs = mal_tokens(t)
         cases.append(c)
     process(ctx, res, run_batch(ctx, res, journal, pool0, cases, 'm'), 'malformed')
+    # --- 5. tokenizer streams: the model lexes the same bytes
+    texts = list(LEX_DIRECTED) + [gen_lex_text(rng) for _ in range(ctx.scale(350, 8000) * scale)]
+    texts = [t for t in dict.fromkeys(texts) if t.strip() and "'" not in t]
+    for k in range(0, len(texts), batch):
+        cases = [lex_case(t) for t in texts[k:k + batch]]
+        process_lex(ctx, res, run_batch(ctx, res, journal, pool0, cases, 'lx%d_' % k), 'lex')
+    # --- 5b. every optional blank dropped / blanks everywhere: same tree, same value (oracle), both through the model
+    trees = []
+    for i in range(ctx.scale(150, 5000) * scale):
+        names = Names('w' + enc(i))
+        syms = rng.sample(SYMS, rng.choice([1, 1, 2]))
+        t = gen_tree(rng, rng.choice([2, 3, 3, 4, 5]), syms, [], [], names, rng.choice(['num', 'num', 'bool']))
+        if not folds_to_sequence(t):
+            trees.append(t)
+    pairs = two_spellings(ctx, res, journal, trees, rng)
+    for k in range(0, len(pairs), batch):
+        sel = pairs[k:k + batch]
+        ca = [mk_text_case(t, a) for t, a, b in sel]
+        cb = [mk_text_case(t, b) for t, a, b in sel]
+        ra = list(run_batch(ctx, res, journal, pool0, ca, 'wa%d_' % k))
+        rb = list(run_batch(ctx, res, journal, pool0, cb, 'wb%d_' % k))
+        for x, y in zip(ra, rb):
+            if x[3] != y[3] or not same_value(x[2], y[2]):
+                res.violations.append(dict(key='lex:blanks-change-meaning',
+                                           desc='%s prints as %s with value %s, but with blanks between all tokens (%s) as %s with value %s'
+                                                % (x[1].text, x[3], x[2], y[1].text, y[3], y[2]),
+                                           case=dict(expr=x[1].text, journal=ctx.journal_text), observed=x[3] + ' ' + x[2], required=y[3] + ' ' + y[2]))
+        process(ctx, res, ra, 'tight')
+        process(ctx, res, rb, 'wide')
     return res
 
 
